@@ -68,6 +68,27 @@ type Case struct {
 	Target   string  `json:"target"`             // empty | unrelated | conflict
 	Decision string  `json:"decision,omitempty"` // v2 rings import into a conflicting target: abort | skip | overwrite
 	Tamper   *Tamper `json:"tamper,omitempty"`
+	// DirSpell (v1 paths): how the key directory is written on the command line / handed to the KeyBackuper:
+	// 0 = clean path, 1 = trailing slash (shell completion), 2 = "/./" before the last element, 3 = doubled separator
+	DirSpell int `json:"dir_spell,omitempty"`
+}
+
+// spellDir writes a clean absolute directory path the way a user might.
+func spellDir(dir string, how int) string {
+	i := strings.LastIndex(dir, "/")
+	switch how {
+	case 1:
+		return dir + "/"
+	case 2:
+		if i > 0 {
+			return dir[:i] + "/." + dir[i:]
+		}
+	case 3:
+		if i > 0 {
+			return dir[:i] + "/" + dir[i:]
+		}
+	}
+	return dir
 }
 
 var idPool = []string{"alice", "alice_1", "Alice", "bob 2-x", "x_storage", "k_hmac_z", "storage_sym", "aaaaa"}
@@ -92,6 +113,9 @@ func genCase(t *rapid.T, path string, tamper bool) Case {
 		c.Ops = append(pre, c.Ops...)
 	}
 	c.Target = rapid.SampledFrom([]string{"empty", "empty", "unrelated", "conflict"}).Draw(t, "target")
+	if path == "v1v1" && rapid.IntRange(0, 2).Draw(t, "dirspell") == 0 {
+		c.DirSpell = rapid.IntRange(1, 3).Draw(t, "dirspell.how")
+	}
 	c.Bulk = rapid.IntRange(0, 2).Draw(t, "bulk") == 0
 	if path == "v1v2" {
 		// the migration takes what EnumerateExportedKeys lists; the selection filters that list
